@@ -425,9 +425,15 @@ func runCheck(def PropDef, tier string, seed int64, leanStatusPath string) int {
 	if exit == 1 && reported == 0 {
 		ev.Violations = 1
 	}
-	os.MkdirAll("/verif/evidence", 0o755)
+	// evidence of the tree under test: /repo's goes to /verif/evidence; a run against another
+	// checkout (VERIF_REPO: seeded changes, the pinned tree) never overwrites it
+	evDir := "/verif/evidence"
+	if r := os.Getenv("VERIF_REPO"); r != "" && filepath.Clean(r) != "/repo" {
+		evDir = "/verif/.work/evidence-other-tree"
+	}
+	os.MkdirAll(evDir, 0o755)
 	b, _ := json.MarshalIndent(ev, "", " ")
-	os.WriteFile(filepath.Join("/verif/evidence", def.ID+".json"), b, 0o644)
+	os.WriteFile(filepath.Join(evDir, def.ID+".json"), b, 0o644)
 	fmt.Printf("%s %s: %d cases (%d distinct non-trivial), %d model ops, %d violations, %d mismatches, lean %v, %.1fs\n",
 		def.ID, tier, rep.Cases, len(rep.Distinct), d.N, reported, len(rep.Mismatches), !leanBroken, time.Since(start).Seconds())
 	return exit
